@@ -2,4 +2,6 @@ pub mod engine;
 pub mod c20;
 pub mod logmodel;
 pub mod logl1;
+pub mod storemode;
+pub mod logl2;
 pub mod c02;
